@@ -1,11 +1,608 @@
-import KG.Spec.Lifecycle
-/-! C15 theorems (under construction). -/
-namespace KG.Props.C15
-open KG KG.Model.Lifecycle KG.Spec.Lifecycle
+import KG.Lemmas.Lifecycle
+import KG.Gen.C15
+/-!
+# C15 — Removal: deleted clusters / endpoints get no traffic, in-flight requests are cut, probing stops
 
-theorem done_nil (ch : Chain) : done [] ch = false := by
-  induction ch with
-  | nil => rfl
-  | cons s t ih => simp [done, memSid] at *
+All theorems are about `KG.Model.Lifecycle` (the mirror of manager.go, clusterinfo.go, endpoint.go,
+upstream_controller.go and the request path upstreaminfo.go → dispatcher.go) and quantify over **every history**
+(`run ops init`, any list of `apply` / `delete` / `reqStart` / `reqPick` / `reqFinish` / `health` operations, i.e. every
+position of a removal relative to the steps of every request) or over every state satisfying the invariant `Inv`
+that every reachable state satisfies (`c15_invariant`).
+
+A context is done (`done cancels chain = true`) iff a scope of its chain was cancelled; the chains are
+`[ep e, cl o]` for an endpoint, `[hc e g, ep e, cl o]` for its g-th health-check loop, `[rq r, ep e, cl o]` for
+a request proxied to it.
+
+What is *not* in here (run-time residue, exhibited by the harness at scripted timings): that Go's `context`
+propagates a cancellation promptly, that `net/http` tears the upstream exchange down and ends the client's stream
+when the proxied request's context ends, that the goroutines exit.
+-/
+namespace KG.Props.C15
+open KG KG.Model.Lifecycle KG.Spec.Lifecycle KG.Lemmas.Lifecycle
+
+/-! ## the source still has the shape the model builds in -/
+
+/-- Regenerated from /repo on every run (tools/extract/c15 → `KG.Gen.C15`): cluster deletion goes through the stopping
+    delete (`DeleteForServerNames` → `DeleteWithStop` → `doDelete(name, true)` → `Stop` → `cancel`), alias removal through
+    the plain one, endpoint contexts derive from the cluster's, removed endpoints leave the map and are cancelled,
+    health-check loops run under (and watch) a context derived from the endpoint's, the dispatcher's goroutine cancels
+    the proxied request when the endpoint's context ends. The model `KG.Model.Lifecycle` is the mirror of exactly this
+    shape; if a fact changes, this obligation fails. -/
+theorem c15_source_shape :
+    Gen.C15.deleteForServerNamesStops = true ∧ Gen.C15.aliasDropStops = false ∧
+    Gen.C15.endpointCtxChildOfCluster = true ∧ Gen.C15.removedEndpointLeavesMap = true ∧
+    Gen.C15.removedEndpointCancelled = true ∧ Gen.C15.healthCheckCtxChildOfEndpoint = true ∧
+    Gen.C15.dispatcherWatchesEndpoint = true := by decide
+
+/-! ## every reachable state -/
+
+/-- the bookkeeping invariant holds after every history -/
+theorem c15_invariant (ops : List Op) : Inv (run ops init) := run_inv ops init init_inv
+
+/-- chains: everything under a cancelled cluster is done -/
+theorem done_of_cluster {cs : List Sid} {o : Nat} (h : Sid.cl o ∈ cs) (ch : Chain) (hm : Sid.cl o ∈ ch) :
+    done cs ch = true := (done_iff cs ch).2 ⟨_, hm, h⟩
+
+/-- chains: everything under a cancelled endpoint is done -/
+theorem done_of_endpoint {cs : List Sid} {e : Nat} (h : Sid.ep e ∈ cs) (ch : Chain) (hm : Sid.ep e ∈ ch) :
+    done cs ch = true := (done_iff cs ch).2 ⟨_, hm, h⟩
+
+/-- **The judge holds on every reachable state**: a cluster no name resolves to is stopped; an endpoint that left
+    the endpoint map, or whose cluster is stopped, is cancelled; a cancelled endpoint is not probed; no proxied
+    request is alive on a cancelled endpoint. -/
+theorem judge_of_inv (st : State) (hI : Inv st) (rids : List Nat) : judge (observe st rids) = true := by
+  unfold judge
+  rw [Bool.and_eq_true, Bool.and_eq_true, List.all_eq_true, List.all_eq_true, List.all_eq_true]
+  refine ⟨⟨?_, ?_⟩, ?_⟩
+  · intro c hc
+    obtain ⟨o, _, hco⟩ := List.mem_flatMap.1 hc
+    unfold obsCluster at hco
+    cases hh : st.heap o with
+    | none => rw [hh] at hco; cases hco
+    | some cl =>
+      rw [hh] at hco
+      simp only [List.mem_singleton] at hco
+      subst hco
+      unfold clusterOk
+      rcases hI.n.no_leak o cl hh with h | h
+      · simp [h]
+      · simp [done_of_cluster h (clChain o) (by simp [clChain])]
+  · intro e he
+    obtain ⟨e0, he0, rfl⟩ := List.mem_map.1 he
+    unfold epOk obsEp
+    simp only [Bool.and_eq_true, Bool.or_eq_true, List.all_eq_true, Bool.not_eq_true']
+    refine ⟨⟨?_, ?_⟩, ?_⟩
+    · cases hi : e0.inMap with
+      | true => exact Or.inl rfl
+      | false => exact Or.inr (done_of_endpoint (hI.e.gone e0 he0 hi) e0.chain (by simp [Ep.chain_eq]))
+    · cases hd : done st.cancels e0.chain with
+      | false => exact Or.inl rfl
+      | true =>
+        right
+        obtain ⟨s, hs, hc⟩ := (done_iff _ _).1 hd
+        have : done st.cancels (e0.hcChain (e0.hcGen - 1)) = true :=
+          (done_iff _ _).2 ⟨s, by simp only [Ep.chain_eq, Ep.hcChain_eq] at hs ⊢; exact List.mem_cons_of_mem _ hs, hc⟩
+        simp [hcLive, this]
+    · intro c hc
+      obtain ⟨o, _, hco⟩ := List.mem_flatMap.1 hc
+      unfold obsCluster at hco
+      cases hh : st.heap o with
+      | none => rw [hh] at hco; cases hco
+      | some cl =>
+        rw [hh] at hco
+        simp only [List.mem_singleton] at hco
+        subst hco
+        simp only
+        by_cases hoo : o = e0.owner
+        · cases hd : done st.cancels (clChain o) with
+          | false => simp
+          | true =>
+            obtain ⟨s, hs, hcs⟩ := (done_iff _ _).1 hd
+            simp only [clChain, List.mem_singleton] at hs
+            subst hs
+            have : done st.cancels e0.chain = true := done_of_cluster hcs e0.chain (by simp [Ep.chain_eq, hoo])
+            simp [this]
+        · simp [hoo]
+  · intro q hq
+    obtain ⟨r, _, hqr⟩ := List.mem_flatMap.1 hq
+    unfold obsReq at hqr
+    split at hqr
+    · rename_i eid o hr
+      simp only [List.mem_singleton] at hqr
+      subst hqr
+      unfold reqOk
+      simp only [Bool.or_eq_true, Bool.not_eq_true', Bool.not_eq_false', List.all_eq_true]
+      cases hd : reqDone st r eid o with
+      | true => exact Or.inl rfl
+      | false =>
+        right
+        intro e he
+        obtain ⟨e0, he0, rfl⟩ := List.mem_map.1 he
+        unfold obsEp
+        simp only
+        by_cases hid : e0.id = eid
+        · obtain ⟨e1, he1, hid1, hown1⟩ := hI.r.req_ep r eid o (Or.inl hr)
+          have : e0 = e1 := hI.e.eq_of_id he0 he1 (hid.trans hid1.symm)
+          subst this
+          have hnd := (done_false_iff _ _).1 hd
+          right
+          rw [done_false_iff]
+          intro s hs
+          simp only [Ep.chain_eq, List.mem_cons, List.not_mem_nil, or_false] at hs
+          rcases hs with rfl | rfl
+          · exact hnd _ (by simp [reqChain_eq, hid])
+          · exact hnd _ (by simp [reqChain_eq, hown1])
+        · left; simp [hid]
+    · cases hqr
+
+theorem c15_judge (ops : List Op) (rids : List Nat) : judge (observe (run ops init) rids) = true :=
+  judge_of_inv _ (c15_invariant ops) rids
+
+/-- cancelled stays cancelled, whatever happens next -/
+theorem c15_done_forever (st : State) (hI : Inv st) (ops : List Op) (ch : Chain) (h : done st.cancels ch = true) :
+    done (run ops st).cancels ch = true :=
+  done_mono (run_cancels_mono ops st hI) h
+
+/-! ## deleting a cluster -/
+
+section cluster
+variable (st : State) (hI : Inv st) (name : Str) (o : Nat) (c : Cluster)
+  (ho : st.names (lower name) = some o) (hc : st.heap o = some c) (hcn : c.name = lower name)
+include hI ho hc hcn
+
+/-- after the delete, no name resolves to the cluster … -/
+theorem c15_cluster_unresolvable : ∀ k, (deleteSpec st name).names k ≠ some o :=
+  (deleteSpec_existing st name hI.n ho hc hcn).1
+
+/-- … so a request for any host that used to reach it is answered 503 by `WithUpstreamInfo` -/
+theorem c15_cluster_503 (r : Nat) (host : Str) (hfresh : (deleteSpec st name).reqs r = none)
+    (hwas : get st host = some o) :
+    (reqStart (deleteSpec st name) r host).reqs r = some Phase.rejected := by
+  obtain ⟨h1, _, _, _, h5⟩ := deleteSpec_existing st name hI.n ho hc hcn
+  have : get (deleteSpec st name) host = none := by
+    unfold Model.Lifecycle.get at hwas ⊢
+    cases hk : (deleteSpec st name).names (lower host) with
+    | none => rfl
+    | some o2 =>
+      have := h5 _ _ hk
+      rw [hwas] at this; cases this
+      exact absurd hk (h1 _)
+  unfold reqStart
+  simp [hfresh, this, upd]
+
+/-- the cluster's context is cancelled, hence every context below it: the endpoints', their health-check loops',
+    the proxied requests' -/
+theorem c15_cluster_cancelled :
+    Sid.cl o ∈ (deleteSpec st name).cancels ∧
+    (∀ ch : Chain, Sid.cl o ∈ ch → done (deleteSpec st name).cancels ch = true) ∧
+    (∀ e, e ∈ (deleteSpec st name).eps → e.owner = o →
+        done (deleteSpec st name).cancels e.chain = true ∧
+        (∀ g, done (deleteSpec st name).cancels (e.hcChain g) = true) ∧
+        hcLive (deleteSpec st name).cancels e = false ∧
+        (∀ r, reqDone (deleteSpec st name) r e.id o = true)) := by
+  have h2 := (deleteSpec_existing st name hI.n ho hc hcn).2.1
+  refine ⟨h2, fun ch hm => done_of_cluster h2 ch hm, ?_⟩
+  intro e _ hown
+  refine ⟨done_of_cluster h2 _ (by simp [Ep.chain_eq, hown]), fun g => done_of_cluster h2 _ (by simp [Ep.hcChain_eq, hown]), ?_,
+    fun r => done_of_cluster h2 _ (by simp [reqChain_eq])⟩
+  have : done (deleteSpec st name).cancels (e.hcChain (e.hcGen - 1)) = true := done_of_cluster h2 _ (by simp [Ep.hcChain_eq, hown])
+  simp [hcLive, this]
+
+/-- frame: only that cluster's scope is cancelled; every context that is not below it keeps its status; endpoints,
+    cluster objects and requests are untouched; the names of every other cluster resolve as before -/
+theorem c15_cluster_frame :
+    (∀ x, x ∈ (deleteSpec st name).cancels ↔ (x ∈ st.cancels ∨ x = Sid.cl o)) ∧
+    (∀ ch : Chain, Sid.cl o ∉ ch → done (deleteSpec st name).cancels ch = done st.cancels ch) ∧
+    (deleteSpec st name).eps = st.eps ∧ (deleteSpec st name).heap = st.heap ∧ (deleteSpec st name).reqs = st.reqs ∧
+    (∀ k o2, o2 ≠ o → ((deleteSpec st name).names k = some o2 ↔ st.names k = some o2)) := by
+  obtain ⟨_, h2, h3, h4, _⟩ := deleteSpec_existing st name hI.n ho hc hcn
+  obtain ⟨f1, f2, f3, _, f5⟩ := deleteSpec_frame st name
+  have hx : ∀ x, x ∈ (deleteSpec st name).cancels ↔ (x ∈ st.cancels ∨ x = Sid.cl o) := by
+    intro x
+    constructor
+    · exact h3 x
+    · rintro (h | rfl)
+      · exact f5 x h
+      · exact h2
+  refine ⟨hx, ?_, f2, f1, f3, h4⟩
+  intro ch hm
+  apply done_congr
+  intro s hs
+  rw [hx]
+  constructor
+  · rintro (h | rfl)
+    · exact h
+    · exact absurd hs hm
+  · exact Or.inl
+
+/-- the other clusters' endpoints, health checks and requests: exactly as before -/
+theorem c15_cluster_frame_endpoints (e : Ep) (hown : e.owner ≠ o) :
+    done (deleteSpec st name).cancels e.chain = done st.cancels e.chain ∧
+    (∀ g, done (deleteSpec st name).cancels (e.hcChain g) = done st.cancels (e.hcChain g)) ∧
+    hcLive (deleteSpec st name).cancels e = hcLive st.cancels e ∧
+    (∀ r, reqDone (deleteSpec st name) r e.id e.owner = reqDone st r e.id e.owner) ∧
+    (∀ o2, pickable (deleteSpec st name) o2 = pickable st o2) := by
+  obtain ⟨_, hf, heps, _⟩ := c15_cluster_frame st hI name o c ho hc hcn
+  have hne : Sid.cl o ≠ Sid.cl e.owner := fun h => hown (by cases h; rfl)
+  have h1 := hf e.chain (by simp [Ep.chain_eq, hne])
+  have h2 : ∀ g, done (deleteSpec st name).cancels (e.hcChain g) = done st.cancels (e.hcChain g) :=
+    fun g => hf _ (by simp [Ep.hcChain_eq, hne])
+  refine ⟨h1, h2, ?_, fun r => hf _ (by simp [reqChain_eq, hne]), fun o2 => by unfold pickable; rw [heps]⟩
+  unfold hcLive; rw [h2]
+
+/-- and it stays that way: after any continuation no name resolves to the deleted cluster object and everything
+    below it is done (a request that resolved the cluster *before* the delete and pops an endpoint only *after* it
+    gets a proxied request whose context is already done) -/
+theorem c15_cluster_forever (ops : List Op) :
+    (∀ k, (run ops (deleteSpec st name)).names k ≠ some o) ∧
+    (∀ ch : Chain, Sid.cl o ∈ ch → done (run ops (deleteSpec st name)).cancels ch = true) ∧
+    (∀ r eid, reqDone (run ops (deleteSpec st name)) r eid o = true) := by
+  have hI' : Inv (deleteSpec st name) := deleteSpec_inv st name hI
+  have h2 := (deleteSpec_existing st name hI.n ho hc hcn).2.1
+  have h3 : Sid.cl o ∈ (run ops (deleteSpec st name)).cancels := run_cancels_mono ops _ hI' _ h2
+  refine ⟨?_, fun ch hm => done_of_cluster h3 ch hm, fun r eid => done_of_cluster h3 _ (by simp [reqChain_eq])⟩
+  intro k hk
+  obtain ⟨_, _, _, _, hncl⟩ := (run_inv ops _ hI').n.names_ok k o hk
+  exact hncl h3
+
+end cluster
+
+/-! ## a sync that drops an endpoint -/
+
+/-- what an update can cancel: the endpoints it drops and the health-check loops of endpoints it disables, nothing else -/
+theorem applySpec_newc (st : State) (hI : Inv st) (sp : Spec) (s : Sid) (h : s ∈ (applySpec st sp).cancels) :
+    s ∈ st.cancels ∨
+    ∃ o, (st.names (lower sp.name) = some o ∨ (st.names (lower sp.name) = none ∧ o = st.next)) ∧
+      ((∃ e, e ∈ st.eps ∧ isDropped o (sp.servers.map (·.1)) e = true ∧ s = Sid.ep e.id) ∨
+       (∃ e', e' ∈ (applySpec st sp).eps ∧ e'.owner = o ∧ disabledOf sp.servers e'.url = true ∧ ∃ g, s = Sid.hc e'.id g)) := by
+  rcases applySpec_eps_cancels st sp hI.n with h0 | ⟨s1, o, h1, h2, _, _, _, _, htarget, h6, h7, _⟩
+  · rw [h0] at h; exact Or.inl h
+  · rw [h7] at h
+    rcases syncEndpoints_newc s1 o sp.servers s h with h' | h' | h'
+    · exact Or.inl (by rw [← h2]; exact h')
+    · right; refine ⟨o, htarget, Or.inl ?_⟩; rw [← h1]; exact h'
+    · right; refine ⟨o, htarget, Or.inr ?_⟩; rw [h6]; exact h'
+
+/-- the update of an existing, non-conflicting cluster runs `Sync` and then adjusts the names -/
+theorem applySpec_update_eq (st : State) (sp : Spec) (o : Nat) (c : Cluster)
+    (ho : st.names (lower sp.name) = some o) (hc : st.heap o = some c) (hcn : c.name = lower sp.name)
+    (hconf : conflicts st (lower sp.name) c.serverNames (lower sp.name :: sp.aliases.map lower) = false) :
+    applySpec st sp = addOrUpdateForServerNames (syncEndpoints (syncState st sp o c) o sp.servers) c.serverNames o := by
+  unfold applySpec Model.Lifecycle.get syncState
+  simp only [lower_idem, ho, hc, hconf, hcn]
+  simp
+
+section endpoint
+variable (st : State) (hI : Inv st) (sp : Spec) (o : Nat) (c : Cluster)
+  (ho : st.names (lower sp.name) = some o) (hc : st.heap o = some c) (hcn : c.name = lower sp.name)
+  (hconf : conflicts st (lower sp.name) c.serverNames (lower sp.name :: sp.aliases.map lower) = false)
+include hI ho hc hcn hconf
+
+/-- an endpoint of the cluster that the new server list no longer names: it leaves the endpoint map, so the picker
+    cannot return it; its context is cancelled, hence its health-check loops and every request proxied to it -/
+theorem c15_endpoint_removed (e : Ep) (he : e ∈ st.eps) (hown : e.owner = o) (hin : e.inMap = true)
+    (hdrop : e.url ∉ sp.servers.map (·.1)) :
+    (∃ e', e' ∈ (applySpec st sp).eps ∧ e'.id = e.id ∧ e'.inMap = false) ∧
+    (∀ o2 x, x ∈ pickable (applySpec st sp) o2 → x.id ≠ e.id) ∧
+    Sid.ep e.id ∈ (applySpec st sp).cancels ∧
+    done (applySpec st sp).cancels e.chain = true ∧
+    (∀ g, done (applySpec st sp).cancels (e.hcChain g) = true) ∧
+    hcLive (applySpec st sp).cancels e = false ∧
+    (∀ r, reqDone (applySpec st sp) r e.id e.owner = true) := by
+  have heq := applySpec_update_eq st sp o c ho hc hcn hconf
+  obtain ⟨_, f2, _, _, f5⟩ := aou_frame (syncEndpoints (syncState st sp o c) o sp.servers) c.serverNames o
+  have hdr : isDropped o (sp.servers.map (·.1)) e = true := (isDropped_iff _ _ e).2 ⟨hown, hin, hdrop⟩
+  obtain ⟨e', he', hid', _, _, _, hmap'⟩ := syncEndpoints_fwd (syncState st sp o c) o sp.servers e he
+  have hgone : e'.inMap = false := by rw [hmap', hdr, hin]; rfl
+  have he'' : e' ∈ (applySpec st sp).eps := by rw [heq, f2]; exact he'
+  have hI' : Inv (applySpec st sp) := applySpec_inv st sp hI
+  have hcan : Sid.ep e.id ∈ (applySpec st sp).cancels := by rw [← hid']; exact hI'.e.gone e' he'' hgone
+  refine ⟨⟨e', he'', hid', hgone⟩, ?_, hcan, done_of_endpoint hcan _ (by simp [Ep.chain_eq]),
+    fun g => done_of_endpoint hcan _ (by simp [Ep.hcChain_eq]), ?_, fun r => done_of_endpoint hcan _ (by simp [reqChain_eq])⟩
+  · intro o2 x hx hid
+    obtain ⟨hxe, _, hxin, _⟩ := mem_pickable hx
+    have : x = e' := hI'.e.eq_of_id hxe he'' (hid.trans hid'.symm)
+    rw [this, hgone] at hxin; cases hxin
+  · have : done (applySpec st sp).cancels (e.hcChain (e.hcGen - 1)) = true := done_of_endpoint hcan _ (by simp [Ep.hcChain_eq])
+    simp [hcLive, this]
+
+/-- forever: after any continuation (including a sync that names the same URL again, which creates a *new*
+    endpoint object) the picker never returns the dropped endpoint object and everything below it stays done -/
+theorem c15_endpoint_forever (e : Ep) (he : e ∈ st.eps) (hown : e.owner = o) (hin : e.inMap = true)
+    (hdrop : e.url ∉ sp.servers.map (·.1)) (ops : List Op) :
+    (∀ o2 x, x ∈ pickable (run ops (applySpec st sp)) o2 → x.id ≠ e.id) ∧
+    (∀ ch : Chain, Sid.ep e.id ∈ ch → done (run ops (applySpec st sp)).cancels ch = true) := by
+  obtain ⟨⟨e', he', hid', hgone⟩, _, hcan, _⟩ := c15_endpoint_removed st hI sp o c ho hc hcn hconf e he hown hin hdrop
+  have hI' : Inv (applySpec st sp) := applySpec_inv st sp hI
+  have hI'' : Inv (run ops (applySpec st sp)) := run_inv ops _ hI'
+  obtain ⟨e2, he2, hid2, _, _, hgone2⟩ := run_ep_fwd ops _ hI' e' he'
+  refine ⟨?_, fun ch hm => done_of_endpoint (run_cancels_mono ops _ hI' _ hcan) ch hm⟩
+  intro o2 x hx hid
+  obtain ⟨hxe, _, hxin, _⟩ := mem_pickable hx
+  have : x = e2 := hI''.e.eq_of_id hxe he2 (hid.trans (hid2.trans hid').symm)
+  rw [this, hgone2 hgone] at hxin; cases hxin
+
+end endpoint
+
+/-- **frame of any `syncUpstreamCluster`** (create, update, conflict): an endpoint that belongs to another cluster, or
+    that the new server list still names, or that was removed earlier, keeps the status of its context; if moreover
+    the new list does not disable it, its health-check loops keep theirs; a request proxied to it keeps its; no
+    cluster context and no request context is ever cancelled by an update. -/
+theorem c15_endpoint_frame (st : State) (hI : Inv st) (sp : Spec) (e : Ep) (he : e ∈ st.eps)
+    (hkeep : st.names (lower sp.name) ≠ some e.owner ∨ e.url ∈ sp.servers.map (·.1) ∨ e.inMap = false) :
+    (∀ x, Sid.cl x ∈ (applySpec st sp).cancels ↔ Sid.cl x ∈ st.cancels) ∧
+    (∀ x, Sid.rq x ∈ (applySpec st sp).cancels ↔ Sid.rq x ∈ st.cancels) ∧
+    (Sid.ep e.id ∈ (applySpec st sp).cancels ↔ Sid.ep e.id ∈ st.cancels) ∧
+    done (applySpec st sp).cancels e.chain = done st.cancels e.chain ∧
+    (∀ r, reqDone (applySpec st sp) r e.id e.owner = reqDone st r e.id e.owner) ∧
+    ((st.names (lower sp.name) ≠ some e.owner ∨ disabledOf sp.servers e.url = false) →
+      (∀ g, done (applySpec st sp).cancels (e.hcChain g) = done st.cancels (e.hcChain g)) ∧
+      hcLive (applySpec st sp).cancels e = hcLive st.cancels e) := by
+  have hsub : ∀ s, s ∈ st.cancels → s ∈ (applySpec st sp).cancels := step_cancels_mono st (.apply sp) hI
+  have hcl : ∀ x, Sid.cl x ∈ (applySpec st sp).cancels ↔ Sid.cl x ∈ st.cancels := by
+    intro x
+    refine ⟨fun h => ?_, hsub _⟩
+    rcases applySpec_newc st hI sp _ h with h | ⟨_, _, ⟨_, _, _, h⟩ | ⟨_, _, _, _, _, h⟩⟩
+    · exact h
+    · cases h
+    · cases h
+  have hrq : ∀ x, Sid.rq x ∈ (applySpec st sp).cancels ↔ Sid.rq x ∈ st.cancels := by
+    intro x
+    refine ⟨fun h => ?_, hsub _⟩
+    rcases applySpec_newc st hI sp _ h with h | ⟨_, _, ⟨_, _, _, h⟩ | ⟨_, _, _, _, _, h⟩⟩
+    · exact h
+    · cases h
+    · cases h
+  have htarget_ne : ∀ o, (st.names (lower sp.name) = some o ∨ (st.names (lower sp.name) = none ∧ o = st.next)) →
+      st.names (lower sp.name) ≠ some e.owner → e.owner ≠ o := by
+    intro o ht hne hoo
+    rcases ht with ht | ⟨_, ht⟩
+    · exact hne (by rw [hoo]; exact ht)
+    · exact absurd (hI.e.owner_lt e he) (by rw [hoo, ht]; exact Nat.lt_irrefl _)
+  have hep : Sid.ep e.id ∈ (applySpec st sp).cancels ↔ Sid.ep e.id ∈ st.cancels := by
+    refine ⟨fun h => ?_, hsub _⟩
+    rcases applySpec_newc st hI sp _ h with h | ⟨o, ht, ⟨e1, he1, hdr, heq⟩ | ⟨_, _, _, _, _, h⟩⟩
+    · exact h
+    · exfalso
+      have hid : e1.id = e.id := (Sid.ep.inj heq).symm
+      have : e1 = e := hI.e.eq_of_id he1 he hid
+      subst this
+      obtain ⟨a, b, c⟩ := (isDropped_iff _ _ e1).1 hdr
+      rcases hkeep with h | h | h
+      · exact htarget_ne o ht h a
+      · exact c h
+      · rw [b] at h; cases h
+    · cases h
+  have hchain : done (applySpec st sp).cancels e.chain = done st.cancels e.chain := by
+    apply done_congr
+    intro s hs
+    simp only [Ep.chain_eq, List.mem_cons, List.not_mem_nil, or_false] at hs
+    rcases hs with rfl | rfl
+    · exact hep
+    · exact hcl _
+  refine ⟨hcl, hrq, hep, hchain, ?_, ?_⟩
+  · intro r
+    unfold reqDone
+    apply done_congr
+    intro s hs
+    simp only [reqChain_eq, List.mem_cons, List.not_mem_nil, or_false] at hs
+    rcases hs with rfl | rfl | rfl
+    · exact hrq _
+    · exact hep
+    · exact hcl _
+  · intro hen
+    have hhc : ∀ g, (Sid.hc e.id g ∈ (applySpec st sp).cancels ↔ Sid.hc e.id g ∈ st.cancels) := by
+      intro g
+      refine ⟨fun h => ?_, hsub _⟩
+      rcases applySpec_newc st hI sp _ h with h | ⟨o, ht, ⟨_, _, _, h⟩ | ⟨e1, he1, hown1, hdis1, g1, heq⟩⟩
+      · exact h
+      · cases h
+      · exfalso
+        have hid : e1.id = e.id := (Sid.hc.inj heq).1.symm
+        obtain ⟨e2, he2, hid2, hown2, hurl2, _⟩ := step_ep_fwd st (.apply sp) hI e he
+        have hI' : Inv (applySpec st sp) := applySpec_inv st sp hI
+        have : e1 = e2 := hI'.e.eq_of_id he1 he2 (hid.trans hid2.symm)
+        subst this
+        rcases hen with h | h
+        · exact htarget_ne o ht h (hown2.symm.trans hown1)
+        · rw [hurl2, h] at hdis1; cases hdis1
+    have hd : ∀ g, done (applySpec st sp).cancels (e.hcChain g) = done st.cancels (e.hcChain g) := by
+      intro g
+      apply done_congr
+      intro s hs
+      simp only [Ep.hcChain_eq, List.mem_cons, List.not_mem_nil, or_false] at hs
+      rcases hs with rfl | rfl | rfl
+      · exact hhc g
+      · exact hep
+      · exact hcl _
+    refine ⟨hd, ?_⟩
+    unfold hcLive; rw [hd]
+
+/-! ## removing an alias -/
+
+/-- no `syncUpstreamCluster` of an object that exists ever stops a cluster: aliases are removed with `Delete`,
+    never `DeleteWithStop` -/
+theorem c15_alias_safe (st : State) (hI : Inv st) (sp : Spec) (x : Nat) :
+    Sid.cl x ∈ (applySpec st sp).cancels ↔ Sid.cl x ∈ st.cancels := by
+  refine ⟨fun h => ?_, step_cancels_mono st (.apply sp) hI _⟩
+  rcases applySpec_newc st hI sp _ h with h | ⟨_, _, ⟨_, _, _, h⟩ | ⟨_, _, _, _, _, h⟩⟩
+  · exact h
+  · cases h
+  · cases h
+
+section alias
+variable (st : State) (hI : Inv st) (sp : Spec) (o : Nat) (c : Cluster)
+  (ho : st.names (lower sp.name) = some o) (hc : st.heap o = some c) (hcn : c.name = lower sp.name)
+  (hconf : conflicts st (lower sp.name) c.serverNames (lower sp.name :: sp.aliases.map lower) = false)
+include hI ho hc hcn hconf
+
+/-- an update that only changes the aliases (same servers, same flags) touches no scope at all: same cancelled set,
+    same endpoint objects, same requests -/
+theorem c15_alias_only_touches_no_scope (hsame : sameServers st o sp.servers) :
+    (applySpec st sp).cancels = st.cancels ∧ (applySpec st sp).eps = st.eps ∧ (applySpec st sp).reqs = st.reqs := by
+  have heq := applySpec_update_eq st sp o c ho hc hcn hconf
+  obtain ⟨_, f2, f3, _, f5⟩ := aou_frame (syncEndpoints (syncState st sp o c) o sp.servers) c.serverNames o
+  have hno : syncEndpoints (syncState st sp o c) o sp.servers = syncState st sp o c :=
+    syncEndpoints_noop (syncState st sp o c) o sp.servers hI.e.hc_sync hsame
+  rw [heq, f5, f2, f3, hno]
+  exact ⟨rfl, rfl, rfl⟩
+
+/-- the names the new object keeps still resolve to the cluster, the dropped alias resolves to nothing -/
+theorem c15_alias_names (k : Str) (hk : st.names k = some o) :
+    (k ∈ (lower sp.name :: sp.aliases.map lower) → (applySpec st sp).names k = some o) ∧
+    (k ∉ (lower sp.name :: sp.aliases.map lower) → (applySpec st sp).names k = none) := by
+  have heq := applySpec_update_eq st sp o c ho hc hcn hconf
+  have hheap : (syncEndpoints (syncState st sp o c) o sp.servers).heap o = some { c with aliases := sp.aliases.map lower } := by
+    rw [syncEndpoints_heap]; exact upd_same ..
+  have hnew : ({ c with aliases := sp.aliases.map lower } : Cluster).serverNames = lower sp.name :: sp.aliases.map lower := by
+    unfold Cluster.serverNames; rw [hcn]
+  have hkold : k ∈ c.serverNames := by
+    obtain ⟨c2, hc2, hkin, _⟩ := hI.n.names_ok k o hk
+    rw [hc] at hc2; cases hc2; exact hkin
+  have hklow : lower k = k := hI.n.srv_lower o c hc k hkold
+  have hk2 : (syncEndpoints (syncState st sp o c) o sp.servers).names k = some o := by
+    rw [syncEndpoints_names]; exact hk
+  rw [heq]
+  rcases aou_spec _ c.serverNames o _ hheap with ⟨he, hr⟩ | ⟨_, g, G, A⟩
+  · rw [hr]
+    rw [hnew] at he
+    exact ⟨fun _ => hk2, fun h => absurd (by rw [← he]; exact hkold) h⟩
+  · rw [hnew] at G A
+    have hna : ¬ ∃ nn, nn ∈ (lower sp.name :: sp.aliases.map lower) ∧ nn ∉ c.serverNames ∧ lower nn = k := by
+      intro ⟨nn, h1, h2, h3⟩
+      rw [lower_new_idem sp.name sp.aliases nn h1] at h3
+      subst h3; exact h2 hkold
+    rw [A.other k hna]
+    constructor
+    · intro hin
+      rcases G.keep k o hk2 with h | ⟨_, _, on, h1, h2, h3⟩
+      · exact h
+      · rw [hI.n.srv_lower o c hc on h1] at h2; subst h2; exact absurd hin h3
+    · intro hnin
+      apply G.kill k o hk2 _ ⟨k, hkold, hklow, hnin⟩
+      rw [nameOf_some hheap]
+
+end alias
+
+/-! ## every request, every timing -/
+
+/-- **Wherever the removal falls in a request's life**: in every reachable state, a request that has been handed
+    an endpoint (it may have resolved its cluster, popped the endpoint, connected, or be streaming — before or after
+    the removal) is not alive if no name resolves to its cluster any more or if its endpoint has left the endpoint
+    map: its context is done. Together with `c15_cluster_503` / `c15_endpoint_removed` (never routed) this is
+    "cancelled or never routed". -/
+theorem c15_request_cut_or_never_routed (ops : List Op) (r eid o : Nat)
+    (hr : (run ops init).reqs r = some (Phase.proxying eid o))
+    (hrem : (∀ k, (run ops init).names k ≠ some o) ∨ (∃ e, e ∈ (run ops init).eps ∧ e.id = eid ∧ e.inMap = false)) :
+    reqDone (run ops init) r eid o = true := by
+  have hI := c15_invariant ops
+  rcases hrem with h | ⟨e, he, hid, hgone⟩
+  · obtain ⟨e, he, _, hown⟩ := hI.r.req_ep r eid o (Or.inl hr)
+    obtain ⟨c, hc⟩ := hI.o e he
+    rw [hown] at hc
+    rcases hI.n.no_leak o c hc with h1 | h1
+    · exact absurd h1 (h _)
+    · exact done_of_cluster h1 _ (by simp [reqChain_eq])
+  · have := hI.e.gone e he hgone
+    rw [hid] at this
+    exact done_of_endpoint this _ (by simp [reqChain_eq])
+
+/-- a request is only ever handed an endpoint that is in the endpoint map of the cluster it resolved, enabled and
+    healthy at that moment (the picker never returns a removed endpoint) -/
+theorem c15_pick_only_current (st : State) (r choice eid o : Nat)
+    (hbefore : st.reqs r ≠ some (Phase.proxying eid o))
+    (hafter : (reqPick st r choice).reqs r = some (Phase.proxying eid o)) :
+    ∃ e, e ∈ st.eps ∧ e.id = eid ∧ e.owner = o ∧ e.inMap = true ∧ e.disabled = false ∧ e.healthy = true := by
+  unfold reqPick at hafter
+  split at hafter
+  · rename_i o' hr
+    split at hafter
+    · simp [upd] at hafter
+    · rename_i e hpick
+      simp only [upd, if_true, Option.some.injEq, Phase.proxying.injEq] at hafter
+      obtain ⟨h1, h2⟩ := hafter
+      subst h1; subst h2
+      obtain ⟨a, b, c, d, f⟩ := mem_pickable (List.mem_of_getElem? hpick)
+      exact ⟨e, a, rfl, b, c, d, f⟩
+  · exact absurd hafter hbefore
+
+/-- **health probing stops**: in every reachable state, an endpoint whose cluster no name resolves to, or that left
+    the endpoint map, or that is disabled, has no running health-check loop, and a probe round does not touch it -/
+theorem c15_probing_stops (ops : List Op) (e : Ep) (he : e ∈ (run ops init).eps)
+    (hrem : (∀ k, (run ops init).names k ≠ some e.owner) ∨ e.inMap = false ∨ e.disabled = true) :
+    hcLive (run ops init).cancels e = false ∧
+    (∀ u ok, probeEp (run ops init).cancels u ok e = e) := by
+  have hI := c15_invariant ops
+  have hdead : hcLive (run ops init).cancels e = false := by
+    rcases hrem with h | h | h
+    · obtain ⟨c, hc⟩ := hI.o e he
+      rcases hI.n.no_leak e.owner c hc with h1 | h1
+      · exact absurd h1 (h _)
+      · have : done (run ops init).cancels (e.hcChain (e.hcGen - 1)) = true := done_of_cluster h1 _ (by simp [Ep.hcChain_eq])
+        simp [hcLive, this]
+    · have : done (run ops init).cancels (e.hcChain (e.hcGen - 1)) = true :=
+        done_of_endpoint (hI.e.gone e he h) _ (by simp [Ep.hcChain_eq])
+      simp [hcLive, this]
+    · have := hI.e.hc_sync e he
+      rw [h] at this
+      simp [hcLive, this]
+  refine ⟨hdead, fun u ok => ?_⟩
+  unfold probeEp
+  simp [hdead]
+
+/-! ## non-vacuity: a concrete history with a removal in the middle of traffic -/
+
+/-- names as explicit byte strings: "a", "b", "x", "X", "B", "u0", "u1" -/
+def nA : Str := [97]
+def nB : Str := [98]
+def nx : Str := [120]
+def nX : Str := [88]
+def nBup : Str := [66]
+def u0 : Str := [117, 48]
+def u1 : Str := [117, 49]
+
+/-- cluster `a` (alias `X`) on u0,u1 and cluster `b` on u1; probes succeed; request 1 streams on `a` via the alias,
+    request 2 on `b`, request 3 has resolved `a` but not popped yet; then `a` is deleted; then request 3 pops;
+    request 4 arrives for the alias. -/
+def demoOps : List Op :=
+  [ .apply { name := nA, aliases := [nX], servers := [(u0, false), (u1, false)] },
+    .apply { name := nB, aliases := [], servers := [(u1, false)] },
+    .health u0 true, .health u1 true,
+    .reqStart 1 nx, .reqPick 1 0,
+    .reqStart 2 nBup, .reqPick 2 0,
+    .reqStart 3 nA,
+    .delete nA,
+    .reqPick 3 1,
+    .reqStart 4 nx ]
+
+example : (run demoOps init).reqs 1 = some (Phase.proxying 1 0) ∧ reqDone (run demoOps init) 1 1 0 = true ∧
+          (run demoOps init).reqs 2 = some (Phase.proxying 4 3) ∧ reqDone (run demoOps init) 2 4 3 = false ∧
+          (run demoOps init).reqs 3 = some (Phase.proxying 2 0) ∧ reqDone (run demoOps init) 3 2 0 = true ∧
+          (run demoOps init).reqs 4 = some Phase.rejected ∧
+          get (run demoOps init) nB = some 3 := by decide
+
+/-- the hypotheses of the cluster theorems are satisfiable: before the delete, `a` resolves to object 0 named `a` -/
+example : (run (demoOps.take 9) init).names (lower nA) = some 0 ∧
+    ((run (demoOps.take 9) init).heap 0).map (·.name) = some (lower nA) ∧
+    (pickable (run (demoOps.take 9) init) 0).map (·.id) = [1, 2] := by decide
+
+/-- the hypotheses of the endpoint theorems are satisfiable: a sync of `a` that drops u0 while request 1 streams on it -/
+def demoDrop : Spec := { name := nA, aliases := [nX], servers := [(u1, false)] }
+
+example : (((run (demoOps.take 9) init).heap 0).map fun c =>
+      conflicts (run (demoOps.take 9) init) (lower demoDrop.name) c.serverNames (lower demoDrop.name :: demoDrop.aliases.map lower))
+      = some false ∧
+    ((run (demoOps.take 9) init).eps.filter (isDropped 0 (demoDrop.servers.map (·.1)))).map (·.id) = [1] ∧
+    reqDone (run (demoOps.take 9) init) 1 1 0 = false ∧
+    reqDone (applySpec (run (demoOps.take 9) init) demoDrop) 1 1 0 = true ∧
+    (pickable (applySpec (run (demoOps.take 9) init) demoDrop) 0).map (·.id) = [2] := by decide
+
+/-- and of the alias theorems: dropping the alias `X` with the same servers -/
+def demoAlias : Spec := { name := nA, aliases := [], servers := [(u0, false), (u1, false)] }
+
+example : get (run (demoOps.take 9) init) nx = some 0 ∧
+    get (applySpec (run (demoOps.take 9) init) demoAlias) nx = none ∧
+    get (applySpec (run (demoOps.take 9) init) demoAlias) nA = some 0 ∧
+    (applySpec (run (demoOps.take 9) init) demoAlias).cancels = (run (demoOps.take 9) init).cancels := by decide
 
 end KG.Props.C15
